@@ -209,7 +209,7 @@ Point64 g_rev_buf[4];
 //@presub /std::reverse\(reverse_path\.begin\(\), reverse_path\.end\(\)\);/vf_reverse_pts(reverse_path.data, reverse_path.size);/
 //@presub /std::reverse\(norms\.begin\(\), norms\.end\(\)\);/vf_reverse_nrm(norms.data, norms.size());/
 //@presub /norms\.emplace_back\(norms\[0\]\);\s*norms\.erase\(norms\.begin\(\)\);/vf_rotate_left_nrm(norms.data, norms.size());/
-//@sub /NegatePath\(self->norms\);/NegatePath(&self->norms);/
+//@sub /NegatePath\(self->norms\);/NegatePath(&self->norms);/ min=0
 //@end
 unsigned nondet_uint(void); int64_t nondet_i64(void); double nondet_double(void);
 void h_Joined(void)
